@@ -202,6 +202,18 @@ def _m_upb(ex, st, args, kw, node):
     return NONE
 
 
+ISH = z3.Function("ISH", I, B)        # the object is one of the azimuthal object's per-azimuth results
+
+
+def _m_upb_parent(ex, st, args, kw, node):
+    """HvsrAzimuthal.update_peaks_bounded: the range is recorded on the parent and handed to every per-azimuth object (C08)"""
+    lo, hi = kw["search_range_in_hz"]
+    h = z3.Int("h!up")
+    cur = st.env["__HC"]
+    st.env["__HC"] = z3.Lambda([h], z3.If(ISH(h), UPB(z3.Select(cur, h), lit_(lo), lit_(hi), kw["find_peaks_kwargs"]), z3.Select(cur, h)))
+    return NONE
+
+
 def _m_driver(ex, st, args, kw, node):
     h = kw["hvsr"]
     c = z3.Select(st.env["__HC"], h.id)
@@ -227,18 +239,25 @@ def _entry_inputs(ex, st):
 
 _ARGS = (nn, maxit, dfn, dmc)
 GH_EN = {"HC": FuncV(lambda ex, st, a, k, n_: z3.Select(st.env["__HC"], a[0]), "HC"), "HC0": lambda h: z3.Select(HC0, h), "HID": lambda a: z3.Select(HIDS, a),
-         "DONE": lambda h: FDW(_after_upb(h), *_ARGS), "IT": lambda h: ITERS(_after_upb(h), *_ARGS)}
+         "DONE": lambda h: FDW(_after_upb(h), *_ARGS), "IT": lambda h: ITERS(_after_upb(h), *_ARGS), "SEARCHED": lambda h: _after_upb(h)}
+_c, _lo, _hi, _kk, _aa = z3.Int("c!u"), z3.Real("lo!u"), z3.Real("hi!u"), z3.Int("k!u"), z3.Int("a!u")
+AX_EN = [
+    # searching again with the range and filters already stored changes nothing (early return of update_peaks_bounded: proved in C08)
+    z3.ForAll([_c, _lo, _hi, _kk], UPB(UPB(_c, _lo, _hi, _kk), _lo, _hi, _kk) == UPB(_c, _lo, _hi, _kk), patterns=[UPB(UPB(_c, _lo, _hi, _kk), _lo, _hi, _kk)]),
+    z3.ForAll([_aa], z3.Implies(z3.And(_aa >= 0, _aa < NAZ), ISH(z3.Select(HIDS, _aa))), patterns=[z3.Select(HIDS, _aa)]),
+]
 ENTRY = Contract(
     qual="hvsrpy.window_rejection.frequency_domain_window_rejection",
-    params=["hvsr", "n", "max_iterations", "distribution_fn", "distribution_mc", "search_range_in_hz", "find_peaks_kwargs"], ghost=GH_EN,
+    params=["hvsr", "n", "max_iterations", "distribution_fn", "distribution_mc", "search_range_in_hz", "find_peaks_kwargs"], ghost=GH_EN, axioms=AX_EN,
     make_inputs=_entry_inputs, obj_havoc={"hvsr": lambda ex, st, v: v},
     ensures=["forall(a, 0, NAZ, HC(HID(a)) == DONE(HID(a)))", "forall(a, 0, NAZ, IT(HID(a)) <= result)", "exists(a, 0, NAZ, IT(HID(a)) == result)"],
-    loops={0: ["forall(a, 0, _k0, HC(HID(a)) == DONE(HID(a)))", "forall(a, _k0, NAZ, HC(HID(a)) == HC0(HID(a)))",
+    loops={0: ["forall(a, 0, _k0, HC(HID(a)) == DONE(HID(a)))", "forall(a, _k0, NAZ, HC(HID(a)) == SEARCHED(HID(a)))",
                "forall(a, 0, _k0, IT(HID(a)) <= max_performed_iterations)",
                "(_k0 == 0 and max_performed_iterations == 0) or exists(a, 0, _k0, IT(HID(a)) == max_performed_iterations)"]},
     modifies=["param:hvsr"], notes="every azimuth: peak search in the requested range, then the iteration with the caller's arguments; returns the largest count")
 ENTRY.ghost_state = ("__HC",)
-TASKS.append(FunctionTask(ENTRY, registry={"HvsrTraditional.update_peaks_bounded": FuncV(_m_upb, "update_peaks_bounded")},
+TASKS.append(FunctionTask(ENTRY, registry={"HvsrTraditional.update_peaks_bounded": FuncV(_m_upb, "update_peaks_bounded"),
+                                           "HvsrAzimuthal.update_peaks_bounded": FuncV(_m_upb_parent, "update_peaks_bounded")},
                           module_env={"HvsrTraditional": ClsV("HvsrTraditional"), "HvsrAzimuthal": ClsV("HvsrAzimuthal"),
                                       "_frequency_domain_window_rejection": FuncV(_m_driver, "_frequency_domain_window_rejection")},
                           label="hvsrpy.window_rejection.frequency_domain_window_rejection[azimuthal]",
